@@ -407,10 +407,48 @@ func c14Check(m *mux.Muxer, md *mModel) string {
 	return ""
 }
 
+// c14Bulk checks one long history: n AddFrame calls alternating two frame kinds, optionally
+// with all three metadata blobs.  The frame counts sit around the limits visible in the code
+// (container.MaxChunks = 1000, MaxFrames = 10000), which no BFS depth reaches.
+var c14BulkCounts = []int{1, 2, 997, 998, 999, 1000, 1001, 1002, 9999, 10000, 10001}
+
+func c14Bulk(n int, meta bool) (v string) {
+	defer func() {
+		if r := recover(); r != nil {
+			v = fmt.Sprintf("panic: %v", r)
+		}
+	}()
+	c14Init()
+	op := func(name string) *c14Op {
+		for i := range c14Ops {
+			if c14Ops[i].name == name {
+				return &c14Ops[i]
+			}
+		}
+		panic("c14: no operation " + name)
+	}
+	a, b := op("AddFrame(vp8l-opaque,dur100)"), op("AddFrame(alph-odd+vp8,dur50-off3,1-noblend-dispose)")
+	m := mux.NewMuxer()
+	md := &mModel{}
+	for i := 0; i < n; i++ {
+		if i%2 == 0 {
+			a.apply(m, md)
+		} else {
+			b.apply(m, md)
+		}
+	}
+	if meta {
+		op("SetICCProfile(odd)").apply(m, md)
+		op("SetEXIF(even)").apply(m, md)
+		op("SetXMP(odd)").apply(m, md)
+	}
+	return c14Check(m, md)
+}
+
 func init() {
 	fw.Register(&fw.Check{
 		ID: "C14", Level: "model_checking", Shards: shards16,
-		Rule:   fmt.Sprintf("explicit-state BFS over the real Muxer: %s-call alphabet (AddFrame of 6 real bitstreams {VP8 even/odd, VP8L opaque/alpha, ALPH-prefixed VP8 with even/odd alpha} x 5 option sets; SetFrameDisposeMode/SetFrameDuration at {0,last,out of range}; SetICCProfile/SetEXIF/SetXMP/AddChunk x {nil,empty,odd,even}; SetLoopCount; SetBackgroundColor; SetCanvasSize), depth 4 quick / 5 thorough, merged by reflection hash of the Muxer's private state; after every history Assemble is checked against a plain-struct model through riffwalk, mux.Demuxer and container.Parser", "73"),
+		Rule:   fmt.Sprintf("explicit-state BFS over the real Muxer: %s-call alphabet (AddFrame of 6 real bitstreams {VP8 even/odd, VP8L opaque/alpha, ALPH-prefixed VP8 with even/odd alpha} x 5 option sets; SetFrameDisposeMode/SetFrameDuration at {0,last,out of range}; SetICCProfile/SetEXIF/SetXMP/AddChunk x {nil,empty,odd,even}; SetLoopCount; SetBackgroundColor; SetCanvasSize), depth 4 quick / 5 thorough, merged by reflection hash of the Muxer's private state; after every history Assemble is checked against a plain-struct model through riffwalk, mux.Demuxer and container.Parser; plus 22 long histories (1..10001 AddFrame calls around the limits 1000 and 10000 visible in the code, with and without metadata) checked the same way", "73"),
 		Assume: []string{"frames are real VP8/VP8L bitstreams produced by this package's encoder (junk data is outside the property's quantifier)", "a rejected Assemble (error) is accepted"},
 		Run: func(e *fw.Env, r *fw.Result) {
 			pin()
@@ -440,6 +478,21 @@ func init() {
 			if st.Capped != "" {
 				r.Cap("%s", st.Capped)
 			}
+			// long histories around the count limits visible in the code
+			k := 0
+			for _, n := range c14BulkCounts {
+				for _, meta := range []bool{false, true} {
+					k++
+					if !e.Mine(k) {
+						continue
+					}
+					r.Eval(1)
+					r.Distinct("bulk", n, meta)
+					if v := c14Bulk(n, meta); v != "" {
+						r.Violate(fmt.Sprintf("mux bulk %d frames meta=%v", n, meta), fmt.Sprintf("%s [calls: %d x AddFrame alternating vp8l-opaque/dur100 and alph-odd+vp8/offset,noblend,dispose; metadata set: %v]", v, n, meta), map[string]any{"bulk": n, "meta": meta})
+					}
+				}
+			}
 			r.SetInfo("bfs_depth_completed", st.Depth)
 			if e.Shard == 0 {
 				r.SetInfo("frontier_sizes_shard0", st.PerDepth)
@@ -449,9 +502,16 @@ func init() {
 		Post: func(e *fw.Env, r *fw.Result) { r.States = int64(len(r.DistinctSet)) },
 		Replay: func(e *fw.Env, raw json.RawMessage) string {
 			pin()
-			var rp struct{ Hist []int }
+			var rp struct {
+				Hist []int
+				Bulk int
+				Meta bool
+			}
 			json.Unmarshal(raw, &rp)
 			c14Init()
+			if rp.Bulk > 0 {
+				return c14Bulk(rp.Bulk, rp.Meta)
+			}
 			return c14Sys{}.Exec(rp.Hist).Violation
 		},
 	})
